@@ -897,8 +897,9 @@ class _StatsProxy:
 def install(extra_modules=()):
     import importlib
     import rsatoolbox
-    for m in ('rdm', 'data', 'model', 'inference', 'util', 'util.searchlight', 'util.pooling',
-              'util.inference_util', 'data.noise', 'rdm.calc_unbalanced') + tuple(extra_modules):
+    for m in (('rdm', 'data', 'model', 'inference', 'util', 'util.searchlight', 'util.pooling',
+              'util.inference_util', 'data.noise', 'rdm.calc_unbalanced', 'io.fmriprep', 'io.spm', 'io.mne')
+              + tuple(extra_modules)):
         importlib.import_module('rsatoolbox.' + m)
     import scipy.stats as sst
     import tqdm as real_tqdm
